@@ -43,7 +43,7 @@ NAMES = {"k1": "all", "k2": "schedules", "k3": "scenarios,schedules", "k4": "all
 # what can be left out of a cache directory, and the data status a server started on the rest reports
 OMITTABLE = ("lines", "paths", "schedules", "scenarios", "agencies", "services", "nodes")
 QUICK_PLAN = [("k1", False), ("k2", True), ("k3", False), ("k4", True), ("k5", False), ("k4", False), ("k5", True), ("k1", True), ("k6", False), ("k6", True), ("k7", False), ("k7", True), ("k8", False), ("k8", True)]
-QUICK_OMITS = {3: "lines", 4: "paths", 5: "schedules", 6: "lines"}      # history index -> kind of files left out
+QUICK_OMITS = {3: "lines", 4: "paths", 5: "schedules", 6: "scenarios"}      # history index -> kind of files left out
 
 
 def omit_files(ds, what):
